@@ -268,10 +268,43 @@ func (g *gen) pausedRefresh() bool {
 	return true
 }
 
+// expiredRevoke scripts "an access token expires while the refresh token issued alongside it is still valid, some other
+// token is issued, then the owner revokes the expired access token": the revocation is accepted and retires the pair
+func (g *gen) expiredRevoke() bool {
+	var cand []int
+	for i := range g.toks {
+		t := &g.toks[i]
+		if t.kind != "access" || t.gone || t.used || t.exp <= g.now {
+			continue
+		}
+		for j := range g.toks {
+			u := &g.toks[j]
+			if u.kind == "refresh" && u.family == t.family && u.issuedAt == t.issuedAt && !u.gone && !u.used && (u.exp == 0 || u.exp > t.exp+2000) {
+				cand = append(cand, i)
+				break
+			}
+		}
+	}
+	if len(cand) == 0 {
+		return false
+	}
+	i := Pick(g.r, cand)
+	t := &g.toks[i]
+	other := g.r.Intn(len(g.h.Clients))
+	g.pending = append(g.pending,
+		HOp{Kind: "advance", Ms: t.exp - g.now + Pick(g.r, []int64{1, 300, 900})},
+		HOp{Kind: "password", Auth: other, CredsOK: true, Scopes: []string{"photos"}, Granted: []string{"photos"}},
+		HOp{Kind: "revoke", Tok: HTok{Ref: i}, Auth: t.client, Hint: Pick(g.r, []string{"access_token", "", "refresh_token"})})
+	return true
+}
+
 func (g *gen) next() HOp {
 	p := g.p
 	if len(g.pending) == 0 && g.r.Chance(4) {
 		g.staleReplay()
+	}
+	if len(g.pending) == 0 && p.WRevoke >= 8 && g.r.Chance(3) {
+		g.expiredRevoke()
 	}
 	if len(g.pending) == 0 && g.r.Chance(5) {
 		g.pausedRefresh()
